@@ -1410,6 +1410,20 @@ class RestAPI(object):
                 cause = params.get("cause")
 
                 """
+                Both error and cause are optional, but the Task must fail
+                whether or not they have been supplied.
+                """
+                if error == None:
+                    error = "States.TaskFailed"
+                if cause == None:
+                    cause = ""
+                if not (isinstance(error, str) and isinstance(cause, str)):
+                    self.logger.warning(
+                        "RestAPI SendTaskFailure: error and cause must be strings"
+                    )
+                    return aws_error("ValidationError"), 400
+
+                """
                 First check if the error or cause exceed length limits.
                 """
                 if len(error) > 256:
